@@ -122,6 +122,8 @@ def write_coqproject():
     lines.append("theories/Model/Machine.v")
     order = open(os.path.join(COQ, "proof_files.txt")).read().split()
     lines += order
+    if os.path.exists(os.path.join(GEN, "Frame.v")):
+        lines.append("gen/Frame.v")
     txt = "\n".join(lines) + "\n"
     p = os.path.join(COQ, "_CoqProject")
     if not os.path.exists(p) or open(p).read() != txt or not os.path.exists(os.path.join(COQ, "Makefile")):
